@@ -39,6 +39,33 @@ Runtime monitoring of the REAL simulators and kernels; the oracle is the algebra
     without ghost reset) sum to zero; forcing-curl update and Laplacian filter (orders 1..3, both types,
     scalar/vector) leave the sum unchanged.
 
+Workload dimensions added later, kernel-level legs only (face kernels / public ENO3 flux kernel, and the flux / update / filter kernels;
+the end-to-end leg drives whole simulators and is out of scope).  No existing assertion or tolerance was changed; every new execution is
+judged by the module's own monitors at their existing tolerances, never bitwise against an execution with another layout:
+  (a) array layout -- every third (grid, axis) pair of face-kernel calls, every third public-flux call (delta probes, compact field) and
+      every third call of the diffusion-flux / forcing-update / filter kernels gets ALL caller arrays (zeroed or garbage-filled flux,
+      field, velocity, in/out vorticity, forcing) as non-contiguous views of the same values (pad / step / fortran per array,
+      util.noncontiguous_copy); results are read back with np.ascontiguousarray.  A third of the filter objects is generated with
+      non-contiguous WORK BUFFERS.
+  (b) histories of TEMPORARY views on one kernel object, compared afterwards -- the two compiled face kernels of each axis (K = 3: flux,
+      field, velocity = stack[j]; pairing judged per j), the public ENO3 kernel (K = 4 single-cell fields with their own velocities and
+      inv_dx), diffusion flux scalar / vector with and without ghost reset (K = 4, own prefactors), forcing update (K = 4), every
+      filter object (K = 3).
+  (c) exactly-zero multipliers -- diffusion-flux prefactor EXACTLY 0 (one draw per (dim, reset) and the two repeat calls on the same flux
+      object; NaN sentinels in the flux array when the ghost zone is reset): every term vanishes, so the module's own tolerance
+      16 eps sum|terms| is 0 and the flux must sum to exactly 0; forcing-update prefactor 0 (same monitor).  Not applicable to the face /
+      public advection kernels (inv_dx = 1/dx > 0; zero VELOCITIES are already a pattern class) and to the filters (no scalar argument).
+  (d) other-precision predecessors -- the ENO3 flux generator (before the registry mark, so its sub-kernels are not taken for the observed
+      ones), every diffusion-flux / forcing-update generator call and the scalar filter generators are first called for the OTHER precision
+      with otherwise identical options and the result called once.
+  Self-test (tools/mut.sh, quick, seed 0; "before" = this module at the preceding commit, run from a git worktree):
+  diffusion_flux_3d.py:73   ghost-ring reset on np.ascontiguousarray(diffusion_flux) (a copy iff the flux is not contiguous)        before HELD (by construction); now diffusion-flux-sum!=0 (view calls)
+  diffusion_flux_3d.py      vector wrapper takes the x component of the OUTPUT from a dict keyed by id(vector_field_diffusion_flux)    before HELD; now diffusion-flux-sum!=0 ('history_call': ...)
+  advection_flux_2d.py      x-front sweep takes velocity[x] from a dict keyed by id(velocity)                                        before HELD; now delta-flux-sum!=0
+  diffusion_flux_2d.py      stencil kernel skipped when prefactor == 0 (ghost ring still reset)                                      before HELD; now diffusion-flux-sum!=0 (nan) at prefactor 0.0
+  diffusion_flux_2d.py      bare (no-reset) stencil kernel memoised per num_threads without the precision                            before HELD; now diffusion-flux-raises (kernel of the other precision served)
+  No false alarm occurred while adding (a)-(d).
+
 Measured max err/tol on the unchanged tree (seeds 0..5 quick, 0..1 thorough, both precisions):
   end to end (16 eps S)                           ns2d 0.038  ns3d 0.0075  passive 0.022
   end to end vs 16 eps sum(|before|+|after|)      0.058  (informational, not enforced)
@@ -79,7 +106,8 @@ RULE = (
     "3-8 random states (field class noise/spikes/checker/smooth/big/plateau with non-zero mean, velocity class "
     "noise/big/const/zeros-mixed, log-uniform nu, rho, dt with Courant and diffusion numbers 1e-3..1e3), ONE step; "
     "cell level: random non-cubic shapes, velocity fields built from sign blocks + exact ties + zeros so that every upwind "
-    "pattern occurs on every axis.  distinct = (simulator, options, precision, field class, velocity class, dt regime) "
+    "pattern occurs on every axis; every third kernel-level call on non-contiguous views, tight-loop histories on temporary views, "
+    "prefactor exactly 0, other-precision predecessors first.  distinct = (simulator, options, precision, field class, velocity class, dt regime) "
     "resp. (dim, precision, axis, sub-check, input class)."
 )
 ASSUMPTIONS = [
@@ -112,6 +140,16 @@ REQUIRE = {
     "face_kernel_calls_scalar_real_t": 8,
     "kernel_calls_on_reused_scratch_object": 16,
     "kernel_sum_checks": 60,
+    # workload dimensions (a)-(d) of the kernel-level legs
+    "face_kernel_pairs_on_noncontiguous_views": 8,
+    "public_flux_calls_on_noncontiguous_views": 30,
+    "kernel_calls_on_noncontiguous_views": 16,
+    "filter_objects_with_noncontiguous_work_buffers": 4,
+    "face_kernel_calls_on_temporary_views": 30,
+    "public_flux_calls_on_temporary_views": 16,
+    "kernel_calls_on_temporary_views": 60,
+    "kernel_calls_with_exactly_zero_prefactor": 8,
+    "other_precision_predecessors": 16,
     **{f"faces_{d}d_ax{a}_{p}": 100 for d in (2, 3) for a in range(d) for p in PATTERNS},
 }
 SHARD_TIMEOUT = {"quick": 900, "thorough": 2400}
@@ -392,6 +430,27 @@ def _e2e(sh, rec):
 # ------------------------------------------------------------------------------------------------
 # (b) cell level: face kernels from the registry
 # ------------------------------------------------------------------------------------------------
+class _Layout:
+    """array layout of the caller's arrays: every ``period``-th call hands ALL array arguments over as NON-contiguous views holding
+    the same values (util.noncontiguous_copy: interior of a sentinel-padded parent / every second cell of a parent, non-unit inner
+    stride / column-major; the mode is drawn per array, so one call mixes layouts).  Results are read back with
+    np.ascontiguousarray and judged by the SAME monitors as the contiguous executions -- never bitwise against another layout."""
+
+    def __init__(self, rng, rec, counter, period=3):
+        self.rng, self.rec, self.counter, self.period, self.n = rng, rec, counter, period, 0
+
+    def next(self):
+        self.n += 1
+        if self.n % self.period != 2 % self.period:
+            return lambda a: a
+        self.rec.count(self.counter)
+        return lambda a: util.noncontiguous_copy(self.rng, a)
+
+
+def _other(real_t):
+    return np.float32 if np.dtype(real_t) == np.float64 else np.float64
+
+
 def _unit(d, ax, k):
     o = [0] * d
     o[ax] = k
@@ -457,9 +516,21 @@ def _faces(sh, rec):
     eps = util.eps(real_t)
     rng = util.rng_for(sh["seed"], ID, sh["name"])
     thorough = sh["tier"] != "quick"
-    n0 = len(kernelspy.REG)
     gen = spne.gen_advection_flux_conservative_eno3_pyst_kernel_2d if d == 2 else spne.gen_advection_flux_conservative_eno3_pyst_kernel_3d
+    # predecessor of the OTHER precision: same generator, same options, generated and called once before the kernel under observation
+    # (and before the registry mark, so its sub-kernels are not mistaken for the observed ones)
+    other_t = _other(real_t)
+    try:
+        so = (9, 10) if d == 2 else (8, 9, 10)
+        ko = gen(real_t=other_t, num_threads=2)
+        ko(advection_flux=np.zeros(so, other_t), field=rng.standard_normal(so).astype(other_t), velocity=rng.standard_normal((d, *so)).astype(other_t), inv_dx=other_t(1.0))
+        rec.count("other_precision_predecessors")
+    except Exception as e:
+        rec.note(f"other-precision predecessor failed: {type(e).__name__}: {e}")
+    n0 = len(kernelspy.REG)
     public = gen(real_t=real_t, num_threads=2)
+    lay = _Layout(rng, rec, "face_kernel_pairs_on_noncontiguous_views")
+    layp = _Layout(rng, rec, "public_flux_calls_on_noncontiguous_views")
     infos = [i for i in kernelspy.REG[n0:] if i.gen == gen.__name__]
     faces = _find_face_kernels(infos, d)
     rec.count("face_kernels_identified", 2 * len(faces))
@@ -484,24 +555,9 @@ def _faces(sh, rec):
         if fkind == "const":
             f[...] = real_t(1.75)
         meta = {"dim": d, "dtype": sh["dtype"], "shape": shape, "field": fkind}
-        for ax in range(d):
-            fr, bk, vn_f, vn_b = faces[ax]
-            v = _pattern_velocity(rng, shape, ax, real_t)
-            outs = []
-            try:
-                for info, vn in ((fr, vn_f), (bk, vn_b)):
-                    flux = np.zeros(shape, real_t)
-                    f0, v0 = f.copy(), v.copy()
-                    info.callable(advection_flux=flux, field=f, inv_dx=(1.0 if rep % 2 else real_t(1.0)), **{vn: v})
-                    rec.count("face_kernel_calls_scalar_python_float" if rep % 2 else "face_kernel_calls_scalar_real_t")
-                    if not (util.bits_equal(f, f0) and util.bits_equal(v, v0)):
-                        rec.violation("face-kernel-modified-input", f"axis {ax} {meta}", {"meta": meta})
-                    outs.append(flux.astype(np.float64))
-            except Exception as e:
-                rec.violation("face-kernel-raises", f"axis {ax}: {type(e).__name__}: {e} {meta}", {"meta": meta})
-                rec.case(None)
-                continue
-            rec.case((d, sh["dtype"], ax, "face-pairing", fkind), sample=meta if rep == 0 and ax == 0 else None, n=2)
+        def pair(ax, f, v, outs, meta, tag=()):
+            """front / back face-kernel outputs (float64, contiguous) of ONE field and velocity: pairing, patterns, ghost cells"""
+            rec.case((d, sh["dtype"], ax, "face-pairing", fkind, *tag), sample=meta if rep == 0 and ax == 0 and not tag else None, n=2)
             Ff = np.moveaxis(outs[0], ax, -1)
             Fb = np.moveaxis(outs[1], ax, -1)
             fm = np.moveaxis(f.astype(np.float64), ax, -1)
@@ -510,7 +566,7 @@ def _faces(sh, rec):
             tr = (slice(2, -2),) * (d - 1)  # transverse interior (written region of both kernels)
             i = np.arange(2, n - 3)  # faces i+1/2 with both cells i and i+1 written
             if i.size == 0:
-                continue
+                return
             out_i = Ff[tr][..., i]  # leaves cell i through its front face
             in_j = -Fb[tr][..., i + 1]  # enters cell i+1 through its back face
             g = np.abs(fm * vm)[tr]
@@ -519,7 +575,7 @@ def _faces(sh, rec):
             err = np.abs(out_i - in_j)
             if not np.all(np.isfinite(err)):
                 rec.violation("face-flux-nonfinite", f"axis {ax} {meta}", {"meta": meta, "f": f, "v": v})
-                continue
+                return
             r = float(np.max(err / tol))
             rec.stat(f"face_pairing_{d}d_{sh['dtype']}", r)
             rec.stat(f"face_pairing_vs_4eps_info_{sh['dtype']}", 4 * r)
@@ -543,24 +599,46 @@ def _faces(sh, rec):
                     f"first: transverse/face index {b}, out {out_i[b]!r} vs in {in_j[b]!r}, v_i={vm[tr][..., i][b]!r} v_i+1={vm[tr][..., i + 1][b]!r} {meta}",
                     {"meta": meta, "axis": ax, "f": f, "v": v, "front": outs[0], "back": outs[1]},
                 )
-        # black box: public kernel, delta field
-        big = int(np.prod(shape)) > 40000
-        for q in range(8 if big else (24 if not thorough else 60)):
-            if min(shape) < 9:
-                break
-            k = tuple(int(rng.integers(4, n - 4)) for n in shape)
-            amp = float(rng.choice([1.0, -3.0, 0.37, 1e3]))
-            fd = np.zeros(shape, real_t)
-            fd[k] = amp
-            if q % (8 if big else 4) == 0:
-                vel = np.ascontiguousarray(np.stack([_pattern_velocity(rng, shape, d - 1 - c, real_t) for c in range(d)]))
-            inv = float(rng.choice([1.0, 7.3, 0.01]))
-            flux = np.zeros(shape, real_t)
+
+        for ax in range(d):
+            fr, bk, vn_f, vn_b = faces[ax]
+            v = _pattern_velocity(rng, shape, ax, real_t)
+            outs = []
+            vw = lay.next()  # every third (grid, axis): flux, field and velocity are non-contiguous views of the same values
             try:
-                public(advection_flux=flux, field=fd, velocity=vel, inv_dx=(real_t(inv) if q % 2 else inv))
+                for info, vn in ((fr, vn_f), (bk, vn_b)):
+                    flux = vw(np.zeros(shape, real_t))
+                    f0, v0 = f.copy(), v.copy()
+                    fa, va = vw(f), vw(v)
+                    info.callable(advection_flux=flux, field=fa, inv_dx=(1.0 if rep % 2 else real_t(1.0)), **{vn: va})
+                    rec.count("face_kernel_calls_scalar_python_float" if rep % 2 else "face_kernel_calls_scalar_real_t")
+                    if not (util.bits_equal(fa, f0) and util.bits_equal(va, v0)):
+                        rec.violation("face-kernel-modified-input", f"axis {ax} {meta}", {"meta": meta})
+                    outs.append(np.ascontiguousarray(flux).astype(np.float64))
             except Exception as e:
-                rec.violation("advection-flux-raises", f"{type(e).__name__}: {e} {meta}", {"meta": meta})
-                break
+                rec.violation("face-kernel-raises", f"axis {ax}: {type(e).__name__}: {e} {meta}", {"meta": meta})
+                rec.case(None)
+                continue
+            pair(ax, f, v, outs, meta)
+            if rep % nrep0 == 1:
+                # histories of TEMPORARY views on the two compiled face kernels of this axis: K = 3 fields / velocities / zeroed flux arrays
+                # live in one owning array each, call j of either kernel gets stack[j] (fresh view objects of different memory whose
+                # id() CPython recycles); the pairing of front and back output is judged afterwards per j
+                K = 3
+                Fs = np.stack([util.field(rng, shape, kd, real_t) for kd in ("noise", "checker", "spikes")])
+                Vs = np.stack([_pattern_velocity(rng, shape, ax, real_t) for _ in range(K)])
+                FL = np.zeros((2, K, *shape), real_t)
+                try:
+                    for side, (info, vn) in enumerate(((fr, vn_f), (bk, vn_b))):
+                        for j in range(K):
+                            info.callable(advection_flux=FL[side][j], field=Fs[j], inv_dx=real_t(1.0), **{vn: Vs[j]})
+                except Exception as e:
+                    rec.violation("face-kernel-raises", f"axis {ax}, history of temporary views: {type(e).__name__}: {e} {meta}", {"meta": meta})
+                    continue
+                for j in range(K):
+                    rec.count("face_kernel_calls_on_temporary_views", 2)
+                    pair(ax, Fs[j], Vs[j], [FL[0][j].astype(np.float64), FL[1][j].astype(np.float64)], {**meta, "history_call": f"{j + 1} of {K} on temporary views of different memory"}, ("temporary-view-history",))
+        def judge_delta(flux, k, amp, vel, inv, meta):
             fl = flux.astype(np.float64)
             vk = np.abs(vel[(slice(None), *k)].astype(np.float64))
             scale = abs(inv * amp) * 8 * float(vk.sum()) + float(np.abs(fl).sum())
@@ -573,13 +651,57 @@ def _faces(sh, rec):
                 rec.violation("delta-flux-support>4d+1", f"{int((fl != 0).sum())} cells affected by a single-cell field at {k} {meta}", {"meta": meta, "k": k, "vel": vel})
             if not (r <= 1):
                 rec.violation("delta-flux-sum!=0", f"single-cell field at {k} amp {amp}: public ENO3 flux sums to {fl.sum()!r} ({r:.3g} tol) {meta}", {"meta": meta, "k": k, "amp": amp, "vel": vel, "inv_dx": inv, "flux": flux})
+
+        # black box: public kernel, delta field
+        big = int(np.prod(shape)) > 40000
+        for q in range(8 if big else (24 if not thorough else 60)):
+            if min(shape) < 9:
+                break
+            k = tuple(int(rng.integers(4, n - 4)) for n in shape)
+            amp = float(rng.choice([1.0, -3.0, 0.37, 1e3]))
+            fd = np.zeros(shape, real_t)
+            fd[k] = amp
+            if q % (8 if big else 4) == 0:
+                vel = np.ascontiguousarray(np.stack([_pattern_velocity(rng, shape, d - 1 - c, real_t) for c in range(d)]))
+            inv = float(rng.choice([1.0, 7.3, 0.01]))
+            vw = layp.next()  # every third call: flux, field and velocity are non-contiguous views
+            flux = vw(np.zeros(shape, real_t))
+            try:
+                public(advection_flux=flux, field=vw(fd), velocity=vw(vel), inv_dx=(real_t(inv) if q % 2 else inv))
+            except Exception as e:
+                rec.violation("advection-flux-raises", f"{type(e).__name__}: {e} {meta}", {"meta": meta})
+                break
+            flux = np.ascontiguousarray(flux)
+            judge_delta(flux, k, amp, vel, inv, meta)
+        if min(shape) >= 9 and not big:
+            # history of TEMPORARY views on the public kernel object: K single-cell fields, velocities and zeroed flux arrays live in one
+            # owning array each; call j gets stack[j]; judged afterwards by the same delta monitor
+            K = 4
+            ks_ = [tuple(int(rng.integers(4, n - 4)) for n in shape) for _ in range(K)]
+            amps = [float(rng.choice([1.0, -3.0, 0.37, 1e3])) for _ in range(K)]
+            invs = [float(rng.choice([1.0, 7.3, 0.01])) for _ in range(K)]
+            FD = np.zeros((K, *shape), real_t)
+            for j in range(K):
+                FD[(j, *ks_[j])] = amps[j]
+            VEL = np.stack([np.stack([_pattern_velocity(rng, shape, d - 1 - c, real_t) for c in range(d)]) for _ in range(K)])
+            FL = np.zeros((K, *shape), real_t)
+            try:
+                for j in range(K):
+                    public(advection_flux=FL[j], field=FD[j], velocity=VEL[j], inv_dx=invs[j])
+            except Exception as e:
+                rec.violation("advection-flux-raises", f"history of temporary views: {type(e).__name__}: {e} {meta}", {"meta": meta})
+            else:
+                for j in range(K):
+                    rec.count("public_flux_calls_on_temporary_views")
+                    judge_delta(FL[j], ks_[j], amps[j], VEL[j], invs[j], {**meta, "history_call": f"{j + 1} of {K} on temporary views of different memory"})
         # compact field through the public kernel
         if min(shape) >= 11:
             fc = _compact(rng, shape, 4, ("noise+1", "plateau", "checker")[rep % 3], real_t)
             vel = _velocity(rng, shape, VEL_KINDS[rep % len(VEL_KINDS)], real_t, 3.0)
-            flux = np.zeros(shape, real_t)
-            public(advection_flux=flux, field=fc, velocity=vel, inv_dx=1.0)
-            fl = flux.astype(np.float64)
+            vw = layp.next()
+            flux = vw(np.zeros(shape, real_t))
+            public(advection_flux=flux, field=vw(fc), velocity=vw(vel), inv_dx=1.0)
+            fl = np.ascontiguousarray(flux).astype(np.float64)
             scale = (8 * d / 3.0) * float(np.max(np.abs(vel))) * float(np.abs(fc.astype(np.float64)).sum())
             r = abs(float(fl.sum())) / (16 * eps * scale + 1e-300)
             rec.stat(f"compact_flux_sum_{sh['dtype']}", r)
@@ -610,10 +732,26 @@ def _kern(sh, rec):
         if not (r <= 1):
             rec.violation(mech, f"{name}: grid sum off by {float(change)!r} ({r:.3g} tol) {meta}", {"meta": meta, **wit})
 
+    lay = _Layout(rng, rec, "kernel_calls_on_noncontiguous_views")
+    other_t = _other(real_t)
+
+    def predecessor(make_and_call):
+        """the same generator for the OTHER precision with otherwise identical options, result called once, before the kernel under observation"""
+        try:
+            make_and_call()
+            rec.count("other_precision_predecessors")
+        except Exception as e:
+            rec.note(f"other-precision predecessor failed: {type(e).__name__}: {e}")
+
     # diffusion flux
     for d in (2, 3):
         for reset in (True, False):
             gen = spne.gen_diffusion_flux_pyst_kernel_2d if d == 2 else spne.gen_diffusion_flux_pyst_kernel_3d
+            so = (7, 8) if d == 2 else (6, 7, 8)
+            predecessor(lambda: gen(real_t=other_t, num_threads=2, reset_ghost_zone=reset)(diffusion_flux=np.zeros(so, other_t), field=rng.standard_normal(so).astype(other_t), prefactor=other_t(0.5)))
+            if d == 3:
+                predecessor(lambda: gen(real_t=other_t, num_threads=2, reset_ghost_zone=reset, field_type="vector")(
+                    vector_field_diffusion_flux=np.zeros((3, *so), other_t), vector_field=rng.standard_normal((3, *so)).astype(other_t), prefactor=other_t(0.5)))
             k = gen(real_t=real_t, num_threads=2, reset_ghost_zone=reset)
             kv = gen(real_t=real_t, num_threads=2, reset_ghost_zone=reset, field_type="vector") if d == 3 else None
             prev_shape = None
@@ -630,9 +768,17 @@ def _kern(sh, rec):
                     m = 2
                 kind = kinds[rep % len(kinds)]
                 pref = float(10 ** rng.uniform(-3, 4))
+                if rep == nrep - 1:
+                    # prefactor EXACTLY zero (inviscid run): every term of the flux vanishes, so the module's own tolerance 16 eps sum|terms|
+                    # vanishes too and the flux must sum to exactly 0 -- whatever the flux array held (NaN sentinels when the ghost zone is reset)
+                    pref = 0.0
+                    rec.count("kernel_calls_with_exactly_zero_prefactor")
                 meta = {"op": f"diffusion_flux_{d}d", "reset": reset, "dtype": sh["dtype"], "shape": shape, "margin": m, "field": kind, "prefactor": pref}
-                f = _compact(rng, shape, m, kind, real_t)
-                flux = (rng.standard_normal(shape) * 1e3).astype(real_t) if reset else np.zeros(shape, real_t)
+                vw = lay.next()  # every third call: flux and field are non-contiguous views of the same values
+                f = vw(_compact(rng, shape, m, kind, real_t))
+                flux = vw((rng.standard_normal(shape) * 1e3).astype(real_t) if reset else np.zeros(shape, real_t))
+                if reset and pref == 0.0:
+                    flux[...] = util.sentinel_like(rng, shape, real_t)
                 rec.count("kern_shapes_first_axis_longer_than_last" if shape[0] > shape[-1] else "kern_shapes_last_axis_longer_or_equal")
                 try:
                     k(diffusion_flux=flux, field=f, prefactor=(real_t(pref) if rep % 2 else pref))
@@ -640,7 +786,7 @@ def _kern(sh, rec):
                     rec.violation("diffusion-flux-raises", f"{type(e).__name__}: {e} {meta}", {"meta": meta})
                     continue
                 S = pref * 4 * d * float(np.abs(f.astype(np.float64)).sum())
-                sumcheck("diffusion-flux-sum!=0", f"diffusion_flux_{d}d", flux.astype(np.float64).sum(), S, meta, {"f": f}, (d, sh["dtype"], "diffusion", reset, kind))
+                sumcheck("diffusion-flux-sum!=0", f"diffusion_flux_{d}d", np.ascontiguousarray(flux).astype(np.float64).sum(), S, meta, {"f": f}, (d, sh["dtype"], "diffusion", reset, kind))
                 if reset:
                     # the SAME flux array object again, overwritten with garbage (ring included): the 2nd and 3rd call on an
                     # already-seen array must reset its ghost ring just like the first
@@ -654,54 +800,115 @@ def _kern(sh, rec):
                             break
                         rec.count("kernel_calls_on_reused_scratch_object")
                         S2 = pref * 4 * d * float(np.abs(f2.astype(np.float64)).sum())
-                        sumcheck("diffusion-flux-sum!=0", f"diffusion_flux_{d}d", flux.astype(np.float64).sum(), S2, {**meta, "call_on_same_flux_array": again}, {"f": f2}, (d, sh["dtype"], "diffusion", reset, "reused-array"))
+                        sumcheck("diffusion-flux-sum!=0", f"diffusion_flux_{d}d", np.ascontiguousarray(flux).astype(np.float64).sum(), S2, {**meta, "call_on_same_flux_array": again}, {"f": f2}, (d, sh["dtype"], "diffusion", reset, "reused-array"))
                 if kv is not None:
-                    fv = _compact(rng, shape, m, kind, real_t, (3,))
-                    fl = (rng.standard_normal((3, *shape)) * 1e3).astype(real_t) if reset else np.zeros((3, *shape), real_t)
+                    vw = lay.next()
+                    fv = vw(_compact(rng, shape, m, kind, real_t, (3,)))
+                    fl = vw((rng.standard_normal((3, *shape)) * 1e3).astype(real_t) if reset else np.zeros((3, *shape), real_t))
                     kv(vector_field_diffusion_flux=fl, vector_field=fv, prefactor=pref)
+                    fl = np.ascontiguousarray(fl)
                     for c in range(3):
                         S = pref * 4 * d * float(np.abs(fv[c].astype(np.float64)).sum())
                         sumcheck("diffusion-flux-sum!=0", "diffusion_flux_3d_vector", fl[c].astype(np.float64).sum(), S, meta, {"f": fv}, (d, sh["dtype"], "diffusion-vector", reset, kind))
+                if rep == 0:
+                    # histories of TEMPORARY views on these kernel objects: K fields and K flux arrays live in one owning array each, call j gets
+                    # stack[j] (fresh view objects of different memory whose id() CPython recycles) and its own prefactor; judged afterwards
+                    K = 4
+                    for kern_, lead, name in ((k, (), f"diffusion_flux_{d}d"),) + (((kv, (3,), "diffusion_flux_3d_vector"),) if kv is not None else ()):
+                        Fs = np.stack([_compact(rng, shape, m, kinds[(rep + j) % len(kinds)], real_t, lead) for j in range(K)])
+                        FL = (rng.standard_normal((K, *lead, *shape)) * 1e3).astype(real_t) if reset else np.zeros((K, *lead, *shape), real_t)
+                        prefs = [float(10 ** rng.uniform(-3, 4)) for _ in range(K)]
+                        try:
+                            if lead:
+                                for j in range(K):
+                                    kern_(vector_field_diffusion_flux=FL[j], vector_field=Fs[j], prefactor=prefs[j])
+                            else:
+                                for j in range(K):
+                                    kern_(diffusion_flux=FL[j], field=Fs[j], prefactor=prefs[j])
+                        except Exception as e:
+                            rec.violation("diffusion-flux-raises", f"history of temporary views: {type(e).__name__}: {e} {meta}", {"meta": meta})
+                            continue
+                        for j in range(K):
+                            rec.count("kernel_calls_on_temporary_views")
+                            mj = {**meta, "prefactor": prefs[j], "history_call": f"{j + 1} of {K} on temporary views of different memory"}
+                            for c in range(3 if lead else 1):
+                                fc_ = Fs[j][c] if lead else Fs[j]
+                                Sj = prefs[j] * 4 * d * float(np.abs(fc_.astype(np.float64)).sum())
+                                sumcheck("diffusion-flux-sum!=0", name, (FL[j][c] if lead else FL[j]).astype(np.float64).sum(), Sj, mj, {"f": Fs[j]}, (d, sh["dtype"], "diffusion", reset, "temporary-view-history", bool(lead)))
     # forcing-curl update
     for d in (2, 3):
         gen = spne.gen_update_vorticity_from_velocity_forcing_pyst_kernel_2d if d == 2 else spne.gen_update_vorticity_from_velocity_forcing_pyst_kernel_3d
+        so = (7, 8) if d == 2 else (6, 7, 8)
+        predecessor(lambda: gen(real_t=other_t, num_threads=2)(vorticity_field=np.zeros(so if d == 2 else (3, *so), other_t), velocity_forcing_field=rng.standard_normal((d, *so)).astype(other_t), prefactor=other_t(0.5)))
         k = gen(real_t=real_t, num_threads=2)
-        for rep in range(nrep):
-            shape = util.shape2d(rng, 7, 50) if d == 2 else util.shape3d(rng, 7, 20)
-            m = 2
-            kind = kinds[rep % len(kinds)]
-            pref = float(10 ** rng.uniform(-3, 4)) * float(rng.choice([-1, 1]))
-            meta = {"op": f"forcing_curl_update_{d}d", "dtype": sh["dtype"], "shape": shape, "field": kind, "prefactor": pref}
-            F = _compact(rng, shape, m, kind, real_t, (d,))
-            wshape = shape if d == 2 else (3, *shape)
-            w0 = util.field(rng, wshape, ("noise", "big", "const")[rep % 3], real_t)  # vorticity need not be compact for this kernel
-            wv = w0.copy()
-            try:
-                k(vorticity_field=wv, velocity_forcing_field=F, prefactor=(real_t(pref) if rep % 2 else pref))
-            except Exception as e:
-                rec.violation("forcing-update-raises", f"{type(e).__name__}: {e} {meta}", {"meta": meta})
-                continue
+
+        def judge_forcing(w0, wv, F, pref, meta, cls):
             ax = tuple(range(wv.ndim - d, wv.ndim))
             # per-cell differences (exact in float64 for float32 data; for float64 data the rounding of w + inc is part of the floor)
             dsum = np.atleast_1d((wv.astype(np.float64) - w0.astype(np.float64)).sum(axis=ax))
             Sabs = abs(pref) * 4 * float(np.abs(F.astype(np.float64)).sum())
             for c, dv in enumerate(dsum):
                 S = Sabs + float(np.abs(np.atleast_1d(w0.astype(np.float64).reshape((-1, *shape))[c])).sum())
-                sumcheck("forcing-curl-sum-changed", f"forcing_curl_{d}d", dv, S, meta, {"F": F, "w0": w0}, (d, sh["dtype"], "forcing-curl", kind))
+                sumcheck("forcing-curl-sum-changed", f"forcing_curl_{d}d", dv, S, meta, {"F": F, "w0": w0}, cls)
+
+        for rep in range(nrep):
+            shape = util.shape2d(rng, 7, 50) if d == 2 else util.shape3d(rng, 7, 20)
+            m = 2
+            kind = kinds[rep % len(kinds)]
+            pref = float(10 ** rng.uniform(-3, 4)) * float(rng.choice([-1, 1]))
+            if rep == nrep - 1:
+                pref = 0.0  # coupling switched off / dt = 0: nothing is added, the sum stays (same monitor, same tolerance formula)
+                rec.count("kernel_calls_with_exactly_zero_prefactor")
+            meta = {"op": f"forcing_curl_update_{d}d", "dtype": sh["dtype"], "shape": shape, "field": kind, "prefactor": pref}
+            vw = lay.next()  # every third call: vorticity (in/out) and forcing are non-contiguous views
+            F = vw(_compact(rng, shape, m, kind, real_t, (d,)))
+            wshape = shape if d == 2 else (3, *shape)
+            w0 = util.field(rng, wshape, ("noise", "big", "const")[rep % 3], real_t)  # vorticity need not be compact for this kernel
+            wv = vw(w0.copy())
+            try:
+                k(vorticity_field=wv, velocity_forcing_field=F, prefactor=(real_t(pref) if rep % 2 else pref))
+            except Exception as e:
+                rec.violation("forcing-update-raises", f"{type(e).__name__}: {e} {meta}", {"meta": meta})
+                continue
+            judge_forcing(w0, np.ascontiguousarray(wv), F, pref, meta, (d, sh["dtype"], "forcing-curl", kind))
+            if rep == 0:
+                # history of TEMPORARY views on this kernel object (vorticity snapshots W[j], forcings FF[j], own prefactor per call)
+                K = 4
+                W0 = np.stack([util.field(rng, wshape, ("noise", "big", "const", "noise")[j], real_t) for j in range(K)])
+                W = W0.copy()
+                FF = np.stack([_compact(rng, shape, m, kinds[j % len(kinds)], real_t, (d,)) for j in range(K)])
+                prefs = [float(10 ** rng.uniform(-3, 4)) * float(rng.choice([-1, 1])) for _ in range(K)]
+                try:
+                    for j in range(K):
+                        k(vorticity_field=W[j], velocity_forcing_field=FF[j], prefactor=prefs[j])
+                except Exception as e:
+                    rec.violation("forcing-update-raises", f"history of temporary views: {type(e).__name__}: {e} {meta}", {"meta": meta})
+                    continue
+                for j in range(K):
+                    rec.count("kernel_calls_on_temporary_views")
+                    judge_forcing(W0[j], W[j], FF[j], prefs[j], {**meta, "prefactor": prefs[j], "history_call": f"{j + 1} of {K} on temporary views of different memory"}, (d, sh["dtype"], "forcing-curl", "temporary-view-history"))
     # Laplacian filter
     for order in (1, 2, 3) + ((4,) if thorough else ()):
         for ftype in ("multiplicative", "convolution"):
             for var in ("scalar", "vector"):
                 shape = util.shape3d(rng, 2 * order + 7, 2 * order + 14)
+                if var == "scalar":
+                    predecessor(lambda: spne.gen_laplacian_filter_kernel_3d(filter_order=order, filter_flux_buffer=np.zeros(shape, other_t), field_buffer=np.zeros(shape, other_t), real_t=other_t, num_threads=2, field_type=var, filter_type=ftype)(
+                        scalar_field=rng.standard_normal(shape).astype(other_t)))
                 fb = (rng.standard_normal(shape) * 1e3).astype(real_t)
                 bb = (rng.standard_normal(shape) * 1e3).astype(real_t)
+                nfilt = order * 4 + (ftype == "convolution") * 2 + (var == "vector")
+                if nfilt % 3 == 1:
+                    # the two work buffers bound at generation are non-contiguous views (scratch carved out of a larger allocation)
+                    fb, bb = util.noncontiguous_copy(rng, fb), util.noncontiguous_copy(rng, bb)
+                    rec.count("filter_objects_with_noncontiguous_work_buffers")
                 filt = spne.gen_laplacian_filter_kernel_3d(filter_order=order, filter_flux_buffer=fb, field_buffer=bb, real_t=real_t, num_threads=2, field_type=var, filter_type=ftype)
                 for rep in range(max(2, nrep // 2)):
                     kind = kinds[(rep + order) % len(kinds)]
                     m = order + 2
                     meta = {"op": "laplacian_filter_3d", "order": order, "type": ftype, "variant": var, "dtype": sh["dtype"], "shape": shape, "margin": m, "field": kind}
                     f0 = _compact(rng, shape, m, kind, real_t, (3,) if var == "vector" else ())
-                    g = f0.copy()
+                    g = lay.next()(f0.copy())  # every third call: the field to be filtered is a non-contiguous view
                     try:
                         if var == "vector":
                             filt(vector_field=g)
@@ -711,7 +918,30 @@ def _kern(sh, rec):
                         rec.violation("filter-raises", f"{type(e).__name__}: {e} {meta}", {"meta": meta})
                         continue
                     A0 = f0.astype(np.float64).reshape((-1, *shape))
-                    A1 = g.astype(np.float64).reshape((-1, *shape))
+                    A1 = np.ascontiguousarray(g).astype(np.float64).reshape((-1, *shape))
                     for c in range(A0.shape[0]):
                         S = (2 + 3 * order) * float(np.abs(A0[c]).sum())
                         sumcheck("filter-sum-changed", "filter_sum", A1[c].sum() - A0[c].sum(), S, meta, {"f": f0}, ("filter", sh["dtype"], order, ftype, var, kind))
+                # history of TEMPORARY views on this filter object: K fields live in one owning array, call j filters the view G[j]
+                K = 3
+                m = order + 2
+                G0 = np.stack([_compact(rng, shape, m, kinds[(j + order) % len(kinds)], real_t, (3,) if var == "vector" else ()) for j in range(K)])
+                G = G0.copy()
+                meta = {"op": "laplacian_filter_3d", "order": order, "type": ftype, "variant": var, "dtype": sh["dtype"], "shape": shape, "margin": m, "history": "temporary views of different memory"}
+                try:
+                    if var == "vector":
+                        for j in range(K):
+                            filt(vector_field=G[j])
+                    else:
+                        for j in range(K):
+                            filt(scalar_field=G[j])
+                except Exception as e:
+                    rec.violation("filter-raises", f"{type(e).__name__}: {e} {meta}", {"meta": meta})
+                    continue
+                for j in range(K):
+                    rec.count("kernel_calls_on_temporary_views")
+                    A0 = G0[j].astype(np.float64).reshape((-1, *shape))
+                    A1 = G[j].astype(np.float64).reshape((-1, *shape))
+                    for c in range(A0.shape[0]):
+                        S = (2 + 3 * order) * float(np.abs(A0[c]).sum())
+                        sumcheck("filter-sum-changed", "filter_sum", A1[c].sum() - A0[c].sum(), S, {**meta, "history_call": j + 1}, {"f": G0[j]}, ("filter", sh["dtype"], order, ftype, var, "temporary-view-history"))
